@@ -864,18 +864,28 @@ READALL_HOOKS = []
 
 @stub('io.ReadFull')
 def io_readfull(I, args, ins):
-    # io.ReadFull(r, buf) -> delegates to the reader's Read until full
+    """io.ReadFull(r, buf): calls r.Read on the unfilled rest until the buffer is full or Read fails."""
+    from ..core import Unwind
     ctx = I.ctx
     r = ctx.force(args[0])
     buf = ctx.force(args[1])
-    res = I.invoke(r, 'Read', [buf], ins)
-    n, err = res[0], ctx.force(res[1])
-    if err is not None:
-        return TupleV((n, err))
-    if is_sym(n) or n < buf.len:
-        # a short read is retried by ReadFull; model as either filled or failed
-        raise Inconclusive('short read in io.ReadFull')
-    return TupleV((n, None))
+    if is_sym(buf.len):
+        raise Inconclusive('io.ReadFull into a buffer of symbolic length')
+    filled = 0
+    for _ in range(64):
+        if filled >= buf.len:
+            return TupleV((filled, None))
+        rest = Slice(buf.base, buf.off + filled, buf.len - filled, buf.cap - filled)
+        res = I.invoke(r, 'Read', [rest], ins)
+        n, err = res[0], ctx.force(res[1])
+        if is_sym(n):
+            n = ctx.concretize(n, 0, buf.len - filled, 'readfull.n')
+        filled += n
+        if err is not None:
+            if filled >= buf.len:
+                return TupleV((filled, None))
+            return TupleV((filled, err))
+    raise Unwind('io.ReadFull: reader keeps returning short reads')
 
 
 # ------------------------------------------------------------------ unicode / misc
